@@ -1,5 +1,5 @@
 PROP = dict(
-    go='c18', n_quick=240, n_thorough=4000,
+    go='c18', n_quick=480, n_thorough=4000,
     coq_header='From LC Require Import Lib.Bytes Model.Config Cases.C18.\n',
     case_type='C18.case', verdict='C18.verdict', explain='C18.model',
     rule='structured stream: chains of 0..6 configuration files (cycles, self-loops, other spellings of a visited '
